@@ -25,7 +25,7 @@ def sh(cmd, **kw):
     return subprocess.run(cmd, text=True, capture_output=True, **kw)
 
 
-def confirm(wt: str, prop: str, var: str) -> int:
+def confirm(wt: str, prop: str, var: str, suffix: str = "") -> int:
     env = dict(os.environ, PYTHONPATH=wt)
     patch = os.path.join(wt, f"patch_{var}.diff")
     demo = os.path.join(wt, f"demo_{var}.py")
@@ -49,18 +49,18 @@ def confirm(wt: str, prop: str, var: str) -> int:
             except OSError:
                 pass
     ok = r0.returncode == 0 and r1.returncode != 0 and t.returncode == 0
-    print(f"{prop}_{var}: demo without patch exit {r0.returncode}, with patch exit {r1.returncode}, suite: {suite} -> {'CONFIRMED' if ok else 'REJECTED'}")
+    print(f"{prop}_{var}{suffix}: demo without patch exit {r0.returncode}, with patch exit {r1.returncode}, suite: {suite} -> {'CONFIRMED' if ok else 'REJECTED'}")
     if not ok:
         print(r0.stderr[-500:], r1.stderr[-500:])
         return 1
-    dst = os.path.join(SEEDED, f"{prop}_{var}")
+    dst = os.path.join(SEEDED, f"{prop}_{var}{suffix}")
     os.makedirs(dst, exist_ok=True)
     shutil.copy(patch, os.path.join(dst, "patch.diff"))
     shutil.copy(demo, os.path.join(dst, "demo.py"))
     notes = os.path.join(wt, "NOTES.md")
     if os.path.exists(notes):
         shutil.copy(notes, os.path.join(dst, "NOTES_agent.md"))
-    meta = {"property": prop, "variant": var, "confirmed": {"demo_without_patch_exit": r0.returncode, "demo_with_patch_exit": r1.returncode,
+    meta = {"property": prop, "variant": var + suffix, "confirmed": {"demo_without_patch_exit": r0.returncode, "demo_with_patch_exit": r1.returncode,
                                                             "suite_with_patch": suite,
                                                             "demo_with_patch_tail": (r1.stderr or r1.stdout)[-300:]},
             "confirmed_by": "selftest/seeded.py confirm (scratch worktree, PYTHONPATH=<worktree>)", "needs": "see NOTES_agent.md",
